@@ -32,14 +32,26 @@ SHARING = {
 LIBC = set(c08.MT_SAFE) | {"strcpy", "strncpy", "memchr"}
 
 
+_LAYOUT = {}
+
+
+def set_layouts(m):
+    """struct names are replaced by a signature of their layout: llvm-link merges identically laid out types
+    (MD5_CTX becomes MD4_CTX when both exist) and renames colliding ones (%struct.X.5)"""
+    _LAYOUT.clear()
+    for name, st in m.structs.items():
+        sig = "%d:" % st["size"] + ",".join("%d+%d" % (f["off"], f["size"]) for f in st["fields"])
+        _LAYOUT[name] = "%S" + hashlib.sha1(sig.encode()).hexdigest()[:8]
+
+
 def tnorm(t):
-    """llvm-link renames colliding struct types (%struct.X.5): irrelevant for code identity"""
-    return re.sub(r"(%(?:struct|union)\.[A-Za-z0-9_]+?)\.\d+\b", r"\1", t)
+    return re.sub(r"%((?:struct|union)\.[A-Za-z0-9_.]+)", lambda mm: _LAYOUT.get(mm.group(1), "%S?"), t)
 
 
 def canon_hashes(m):
     """canonical structural hash per defined function (independent of llvm-link's renaming of private symbols)"""
     memo = {}
+    set_layouts(m)
 
     def gkey(name):
         g = m.globals.get(name)
